@@ -74,7 +74,7 @@ Definition hk_ok (s : sess) : Prop :=
 
 Definition est_ok (s : sess) : Prop :=
   (st s = Ok -> estab s = true) /\ (rd s <> RNone -> estab s = true) /\
-  (st s = Preparing -> rd s = RNone).
+  (st s = Preparing -> rd s = RNone) /\ (estab s = true -> st s <> Preparing).
 
 Definition stat_inv (s : sess) : Prop := cl_ok s /\ rd_ok s /\ nt_ok s /\ hk_ok s /\ est_ok s.
 
@@ -161,38 +161,40 @@ Definition same_ctrl_but_rd (s s' : sess) : Prop :=
 
 Ltac rdc_tac := unfold same_ctrl_but_rd; cbn; repeat split; reflexivity.
 
-Lemma reader_step_pre g s b s' fx :
-  reader_step g s b = Some (s', fx) ->
-  match rd s with R0 | RLook _ _ | RLock _ _ | R3 _ | R4 _ => True | _ => False end ->
+Lemma reader_step_pre s b s' fx :
+  reader_step fixed s b = Some (s', fx) ->
+  match rd s with RNone | R0 | RLook _ _ | RLock _ _ | R3 _ | R4 _ => True | _ => False end ->
   same_ctrl_but_rd s s' /\ rd_pre (rd s') = true /\ rd s' <> RNone.
 Proof.
   unfold reader_step. destruct (rd s) eqn:Erd; try tauto; intros H _.
+  - destruct (estab s); [|discriminate]. cbn [fix_acc fixed] in H. inversion H; subst; cbn; repeat split; try rdc_tac; discriminate.
   - destruct (goon (st s)); inversion H; subst; cbn; repeat split; try rdc_tac; discriminate.
   - destruct (nth_error (calls s) i) as [c|]; [destruct (c_tab c)|]; inversion H; subst; cbn;
       repeat split; try rdc_tac; discriminate.
   - destruct (nth_error (calls s) i) as [c|]; [|discriminate].
     destruct (mu_free c); [|discriminate].
-    destruct (fix_dup g && negb (c_dones c =? 0)).
+    destruct (fix_dup fixed && negb (c_dones c =? 0)).
     + inversion H; subst; cbn; repeat split; try rdc_tac; discriminate.
-    + destruct d; try destruct (fix_abort g); inversion H; subst; cbn; repeat split; try rdc_tac; discriminate.
+    + destruct d; try destruct (fix_abort fixed); inversion H; subst; cbn; repeat split; try rdc_tac; discriminate.
   - destruct (early s x).
     + destruct x; try (inversion H; subst; cbn; repeat split; try rdc_tac; discriminate).
       destruct (nth_error (calls s) i) as [c|]; [|discriminate].
-      destruct (fix_abort g); inversion H; subst; cbn; repeat split; try rdc_tac; discriminate.
+      destruct (fix_abort fixed); inversion H; subst; cbn; repeat split; try rdc_tac; discriminate.
     + inversion H; subst; cbn; repeat split; try rdc_tac; discriminate.
   - destruct x; try discriminate.
     + destruct b; [|destruct k]; inversion H; subst; cbn; repeat split; try rdc_tac; discriminate.
     + destruct (nth_error (calls s) i) as [c|]; [|discriminate].
-      destruct b; [|destruct (fix_abort g)]; inversion H; subst; cbn; repeat split; try rdc_tac; discriminate.
+      destruct b; [|destruct (fix_abort fixed)]; inversion H; subst; cbn; repeat split; try rdc_tac; discriminate.
 Qed.
 
 Lemma stat_inv_pre s s' :
-  same_ctrl_but_rd s s' -> rd_pre (rd s') = true -> rd s <> RNone -> rd s' <> RNone ->
+  same_ctrl_but_rd s s' -> rd_pre (rd s') = true -> estab s = true -> rd s' <> RNone ->
   stat_inv s -> stat_inv s'.
 Proof.
-  intros (E1 & E2 & E3 & E5 & E6 & _) Hp Hn Hn' (Hc & Hr & Hnt & Hh & (He1 & He2 & He3)).
+  intros (E1 & E2 & E3 & E5 & E6 & _) Hp Hes Hn' (Hc & Hr & Hnt & Hh & (He1 & He2 & He3 & He4)).
   unfold stat_inv, cl_ok, rd_ok, nt_ok, hk_ok, est_ok in *.
-  rewrite E1, E2, E3, E5, E6. repeat split; try tauto.
+  rewrite E1, E2, E3, E5, E6. repeat split; try tauto;
+    try (intros X; exfalso; exact (He4 Hes X)).
   destruct (rd s'); try discriminate; exact I.
 Qed.
 
@@ -230,7 +232,7 @@ Proof.
   intros Hi H. unfold sstep, sstep_cfg in H. destruct e.
   - destruct (conn s); inversion H; subst. eapply stat_inv_ctrl; [|exact Hi]. ctrl_tac.
   - (* frame *) unfold noeff, frame_step in H. destruct (rd s) eqn:Erd; try discriminate.
-    destruct Hi as (Hc & Hr & Hn & Hh & (He1 & He2 & He3)).
+    destruct Hi as (Hc & Hr & Hn & Hh & (He1 & He2 & He3 & He4)).
     assert (Hst : st s <> Preparing) by (intros X; specialize (He3 X); congruence).
     assert (Hes : estab s = true) by (apply He2; congruence).
     unfold stat_inv, cl_ok, rd_ok, nt_ok, hk_ok, est_ok in *.
@@ -246,8 +248,12 @@ Proof.
   - eapply closer_step_inv; eauto.
   - destruct (rd s) eqn:Erd; try (unfold reader_step in H; rewrite Erd in H; discriminate).
     all: try (eapply reader_step_disc; [exact Hi|exact H|rewrite Erd; exact I]).
-    all: destruct (reader_step_pre _ _ _ _ _ H) as (Hs & Hp & Hn); [rewrite Erd; exact I|];
-      eapply stat_inv_pre; eauto; rewrite Erd; discriminate.
+    all: destruct (reader_step_pre _ _ _ _ H) as (Hs & Hp & Hn); [rewrite Erd; exact I|];
+      (assert (Hes : estab s = true) by
+         (destruct (estab s) eqn:X; auto; exfalso;
+          first [ unfold reader_step in H; rewrite Erd, X in H; discriminate H
+                | destruct Hi as (_ & _ & _ & _ & (_ & He2 & _)); rewrite He2 in X by (rewrite Erd; discriminate); discriminate X ]));
+      eapply stat_inv_pre; eauto.
   - unfold noeff in H. destruct (visit_step s i) eqn:E; inversion H; subst.
     eapply stat_inv_ctrl; [eapply visit_step_ctrl; eauto|exact Hi].
   - unfold noeff in H. destruct (caller_step s i veto wr) eqn:E; inversion H; subst.
@@ -291,7 +297,7 @@ Proof.
     + inversion H; subst; apply ch_same; reflexivity.
     + inversion H; subst; apply ch_same; reflexivity.
   - destruct (rd s) eqn:Erd; try (unfold reader_step in H; rewrite Erd in H; discriminate).
-    all: try (destruct (reader_step_pre _ _ _ _ _ H) as ((E & _) & _); [rewrite Erd; exact I|];
+    all: try (destruct (reader_step_pre _ _ _ _ H) as ((E & _) & _); [rewrite Erd; exact I|];
               apply ch_same; exact E).
     all: unfold reader_step in H; rewrite Erd in H.
     + inversion H; subst; apply ch_same; reflexivity.
@@ -508,6 +514,8 @@ Proof.
   { apply (closed_mono_step s (EReader b) s' fx Hsi). exact H. }
   destruct Hi as (Hc & Hp & Hb).
   unfold reader_step in H. destruct (rd s) eqn:Erd; try discriminate.
+  - (* the read loop starts *) destruct (estab s); [|discriminate]. cbn [fix_acc fixed] in H. inversion H; subst; clear H;
+      (eapply ic_inv_same; [split; [exact Hc|split; [exact Hp|exact Hb]]|reflexivity|reflexivity|exact I|exact Hmono]).
   - (* R0 *) destruct (goon (st s)); inversion H; subst; clear H;
       (eapply ic_inv_same; [split; [exact Hc|split; [exact Hp|exact Hb]]|reflexivity|reflexivity|exact I|exact Hmono]).
   - (* RLook *)
@@ -648,6 +656,7 @@ Proof.
     all: destruct (st s); inversion H; subst; cbn; auto.
   - unfold reader_step in H. destruct (rd s) eqn:Erd; try discriminate; try tauto.
     all: try (destruct x; try tauto; discriminate H).
+    + destruct (estab s); [|discriminate]. cbn [fix_acc fixed] in H. inversion H; subst; cbn; auto.
     + destruct (goon (st s)); inversion H; subst; cbn; auto.
     + destruct (nth_error (calls s) i) as [c|]; [destruct (c_tab c)|]; inversion H; subst; cbn; auto.
     + destruct (nth_error (calls s) i) as [c|]; [|discriminate]. destruct (mu_free c); [|discriminate].
